@@ -323,9 +323,51 @@ func checkC07(c *run.Ctx) {
 		}
 		jr.done(id)
 	}
+	// Hand-written content shapes: integer keys beyond the int64 range, spelled differently in the mapping and in
+	// what it merges (the doc model of the generator holds int64 keys only).
+	for _, sh := range []struct{ name, text, want string }{
+		{"u64-explicit-beats-merged", "base: &b {0xFFFFFFFFFFFFFFFF: merged, other: 1}\ntop:\n  18446744073709551615: explicit\n  <<: *b\n", `{"18446744073709551615":"explicit","other":1}`},
+		{"u64-earlier-source-wins", "a: &a {0x8000000000000000: from-a}\nb: &b {9223372036854775808: from-b, z: 1}\ntop: {<<: [*a, *b]}\n", `{"9223372036854775808":"from-a","z":1}`},
+		{"u64-alias-key", "max: &max 0xFFFF_FFFF_FFFF_FFFF\nm: &m {18446744073709551615: merged, y: 2}\ntop:\n  *max : explicit\n  <<: *m\n", `{"18446744073709551615":"explicit","y":2}`},
+		{"small-control", "m: &m {16: merged, y: 2}\ntop:\n  0x10: explicit\n  <<: *m\n", `{"16":"explicit","y":2}`},
+		{"octal-and-binary", "m: &m {0o17: merged, 0b11: merged3}\ntop:\n  15: explicit\n  3: explicit3\n  <<: *m\n", `{"15":"explicit","3":"explicit3"}`},
+	} {
+		id := "content/" + sh.name
+		if c.Only != "" && c.Only != id {
+			continue
+		}
+		var node yaml.Node
+		if err := yaml.Unmarshal([]byte(sh.text), &node); err != nil {
+			c.Infra("content shape %s does not parse: %v", sh.name, err)
+			continue
+		}
+		var v any
+		var derr error
+		if pi := run.Guard(func() { v, derr = ordered.DecodeYAML(&node) }); pi != nil {
+			c.Violation(id, map[string]any{"what": "DecodeYAML panicked: " + pi.Value, "document": sh.text, "stack": pi.Stack})
+			continue
+		}
+		c.Eval(1)
+		if derr != nil {
+			c.Violation(id, map[string]any{"what": "DecodeYAML failed: " + derr.Error(), "document": sh.text})
+			continue
+		}
+		want, _ := doc.FromJSON([]byte(sh.want))
+		got, has := anyToDoc(v).Get("top")
+		if !has {
+			c.Violation(id, map[string]any{"what": "no `top` in the result", "document": sh.text})
+			continue
+		}
+		if diff := doc.Equal(want, got, doc.EqOpts{NumByValue: true}); diff != "" {
+			c.Violation(id, map[string]any{"what": "merge result differs from the merge rules (keys are the same key whatever base they are spelled in): " + diff, "document": sh.text, "got": got.String(), "want": sh.want})
+			continue
+		}
+		c.Count("hand_written_content_shapes", 1)
+		c.Feature("content", sh.name)
+	}
 	jr.clear()
 	c.Finish("exploration",
-		"random anchor graphs over mappings, sequences and scalars: aliases as values and as keys (string/int/bool scalars; int/bool/hex key spellings that canonicalise), merges as single alias, sequence of aliases, inline mapping, repeated `<<` keys and merges reached through merges, up to 12 shared nodes, expansion bounded to 10^4 nodes, rendered to YAML by the harness (block/flow) and decoded with ordered.DecodeYAML; expected content from the harness's merge-rule resolver (ordered comparison), a second weaker oracle from yaml.v3's own decoder where applicable, pointer-uniqueness and mutate-one-expansion monitors for copy independence; a second phase adds back-edges (value cycles: must be rejected; merge-only cycles: must be tolerated; mappings used as keys through aliases: must be rejected) with per-case wall-clock recorded; hand-written cycle shapes through Parse and DecodeYAML. distinct_nontrivial counts distinct feature sets",
+		"five hand-written content shapes with integer keys beyond int64 and in other bases; random anchor graphs over mappings, sequences and scalars: aliases as values and as keys (string/int/bool scalars; int/bool/hex key spellings that canonicalise), merges as single alias, sequence of aliases, inline mapping, repeated `<<` keys and merges reached through merges, up to 12 shared nodes, expansion bounded to 10^4 nodes, rendered to YAML by the harness (block/flow) and decoded with ordered.DecodeYAML; expected content from the harness's merge-rule resolver (ordered comparison), a second weaker oracle from yaml.v3's own decoder where applicable, pointer-uniqueness and mutate-one-expansion monitors for copy independence; a second phase adds back-edges (value cycles: must be rejected; merge-only cycles: must be tolerated; mappings used as keys through aliases: must be rejected) with per-case wall-clock recorded; hand-written cycle shapes through Parse and DecodeYAML. distinct_nontrivial counts distinct feature sets",
 		nil,
 		[]string{"error messages are not checked", "duplicate explicit keys and merge values that are not mappings are outside the property and not generated", "a stack overflow is process-fatal: the driver attributes a dead process to the journalled case"})
 }
